@@ -210,11 +210,18 @@ func runC12(c *Ctx) {
 				}
 				lastLen[v.name] = len(db.Bytes())
 			} else {
-				switch rng.Intn(4) {
+				switch rng.Intn(5) {
 				case 0:
 					value = []byte{}
 				case 1:
 					value = randBytes(rng, rng.Intn(6))
+				case 4:
+					// an ordinary variable whose value happens to begin with an authentication
+					// descriptor (a stored .auth file): it is kept as it is
+					value = randBytes(rng, rng.Intn(40))
+					if _, m, err := signature.SignEFIVariable(varByName(v.name, v.g, at), rawValue(value), key, cert); err == nil {
+						value = m.(interface{ Bytes() []byte }).Bytes()
+					}
 				default:
 					value = randBytes(rng, rng.Intn(80))
 				}
